@@ -35,7 +35,8 @@ def run(prog, ctx):
 
     # ---------------- C09.I index formula: find set/check loops and the index argument
     idx_exprs = {}
-    for f in bfns:
+    closures = [g for g in prog.fns.values() if not g.promoted and "{closure" in g.id and any(g.id.startswith(f.id + "::") for f in bfns)]
+    for f in bfns + closures:
         s = Sym(prog, f, ifconv=False)
         for b, site in f.calls():
             cal = site.get("callee") or ""
@@ -43,6 +44,9 @@ def run(prog, ctx):
             if cal.startswith(B) and nm in ("set_bit", "get_bit") and len(site["args"]) == 2:
                 e = C.resolve_var(prog, f, s.operand(site["args"][1]), s)
                 if sym.contains(e, lambda t: t[0] == "call" and t[1].endswith("::next")):
+                    idx_exprs[(f.id, nm)] = (e, site["span"])
+                elif "{closure" in f.id and sym.contains(e, lambda t: t[0] == "param"):
+                    # iterator adaptor form `(1..=k).all(|i| self.get_bit(index(h0, h1, i)))`: the closure argument is i
                     idx_exprs[(f.id, nm)] = (e, site["span"])
     n_i = 0
     for (fid, nm), (e, span) in sorted(idx_exprs.items()):
@@ -69,16 +73,50 @@ def run(prog, ctx):
         rng = C.find_sub(e, lambda t: t[0] == "call" and t[1].endswith("RangeInclusive::<Idx>::new"))
         if rng is not None and rng[2][0] == ("const", 1) and "num_hashes" in show(rng[2][1]):
             res.discharged += 1
+        elif rng is not None and rng[2][0][0] == "const" and rng[2][0] != ("const", 1):
+            res.violate("C09.I", "C09.I|%s|range" % fid, "%s does not iterate i over 1..=num_hashes (starts at %s)" % (fid, show(rng[2][0])), fid, span)
         else:
-            res.violate("C09.I", "C09.I|%s|range" % fid, "%s does not iterate i over 1..=num_hashes" % fid, fid, span)
+            res.undecided += 1
     res.rule("C09.I", n_i, 2, "bit-index derivations (set and check loops)")
     # sibling agreement
-    vals = [show(e) for (fid, nm), (e, sp) in idx_exprs.items()]
     res.obligations += 1
-    if len(set(vals)) == 1 and len(vals) >= 2:
+    sets = [e for (fid, nm), (e, sp) in idx_exprs.items() if nm == "set_bit"]
+    gets = [e for (fid, nm), (e, sp) in idx_exprs.items() if nm == "get_bit"]
+    verdict = None
+    if sets and gets:
+        if all(show(a) == show(b) for a in sets for b in gets):
+            verdict = True
+        else:
+            # compare by value on common leaves (the loop variable is matched by kind: next(..) / closure parameter)
+            def norm_env(e, h0, h1, i, w):
+                env = {"@prog": prog}
+                for k in formula.leaves(e):
+                    if k == "h0" or k.endswith(".h0") or k.endswith("h0"):
+                        env[k] = h0
+                    elif k == "h1" or k.endswith("h1"):
+                        env[k] = h1
+                    elif k.startswith("next(") or k in ("i", "arg2", "idx"):
+                        env[k] = i
+                    elif k.startswith("len(") and "bit_array" in k:
+                        env[k] = w
+                return env
+            try:
+                verdict = True
+                for i in (1, 2, 9):
+                    for w in (1, 3, 1024):
+                        h0, h1 = rnd.getrandbits(64), rnd.getrandbits(64)
+                        va = set(formula.evaluate(a, norm_env(a, h0, h1, i, w)) for a in sets)
+                        vb = set(formula.evaluate(b, norm_env(b, h0, h1, i, w)) for b in gets)
+                        if va != vb:
+                            verdict = False
+            except formula.Uneval:
+                verdict = None
+    if verdict is True:
         res.discharged += 1
+    elif verdict is False:
+        res.violate("C09.A", "C09.A|index", "the check path and the set path derive different bit indices: %s" % sorted(set(show(v)[:100] for v in sets + gets)), None)
     else:
-        res.violate("C09.A", "C09.A|index", "the check loop and the set loop derive different bit indices: %s" % sorted(set(v[:100] for v in vals)), None)
+        res.undecided += 1
     # hashes
     ch = C.fn_one(prog, B, "compute_hash")
     if ch is not None:
@@ -93,11 +131,15 @@ def run(prog, ctx):
             if ok0:
                 res.discharged += 1
             else:
-                res.violate("C09.I", "C09.I|h0", "h0 is not XXH64(item, seed): %s" % show(a)[:100], ch.id)
+                res.undecided += 1
+            inner_seed = inner[2][0] if inner is not None and inner[2] else None
             if ok1:
                 res.discharged += 1
+            elif inner_seed is not None and (inner_seed[0] == "const" or (inner_seed[0] == "field" and inner_seed[1] == ("param", 1, "self"))):
+                # positive evidence: the second hasher is seeded with a constant or with the configured seed, not with h0
+                res.violate("C09.I", "C09.I|h1", "h1 is not XXH64(item, h0): the second hasher is seeded with %s (it must be seeded with the first digest)" % show(inner_seed), ch.id)
             else:
-                res.violate("C09.I", "C09.I|h1", "h1 is not XXH64(item, h0) (the second hasher must be seeded with the first digest)", ch.id)
+                res.undecided += 1
         else:
             res.undecided += 2
         for b, site in ch.calls():
@@ -107,7 +149,8 @@ def run(prog, ctx):
     for nm in ("get_bit", "set_bit"):
         f = C.fn_one(prog, B, nm)
         if f is None:
-            res.violate("C09.A", "C09.A|missing|" + nm, "BloomFilter::%s no longer exists" % nm)
+            res.obligations += 1
+            res.undecided += 1
             continue
         s = Sym(prog, f)
         res.obligations += 1
@@ -117,10 +160,35 @@ def run(prog, ctx):
         else:
             exprs = [x[3] for x in C.buffer_stores(prog, f, "bit_array")] + [("idx",) + (x[2],) for x in C.buffer_stores(prog, f, "bit_array")]
         t = " ".join(show(x) if x and x[0] != "idx" else show(x[1]) for x in exprs)
-        if "(bit_index >> 6)" in t and "(63 & bit_index)" in t and "(1 <<" in t:
+        verdict = None
+        pname = f.local_name(2) or "arg2"
+        words = [0x0123456789abcdef, 0xfedcba9876543210, 0x8000000000000001, 0]
+        try:
+            if nm == "get_bit":
+                verdict = True
+                for idx in (0, 1, 63, 64, 65, 127, 128, 200, 255):
+                    got = formula.evaluate(exprs[0], {"@prog": prog, "self.bit_array": words, pname: idx})
+                    if bool(got) != bool((words[idx >> 6] >> (idx & 63)) & 1):
+                        verdict = False
+            else:
+                st = list(C.buffer_stores(prog, f, "bit_array"))
+                if st:
+                    verdict = True
+                    for idx in (0, 1, 63, 64, 65, 127, 128, 200, 255):
+                        env = {"@prog": prog, "self.bit_array": words, pname: idx}
+                        for (b_, base, ie, val, span, _s) in st:
+                            wi = formula.evaluate(ie, env)
+                            nv = formula.evaluate(val, env)
+                            if wi != idx >> 6 or nv != (words[idx >> 6] | (1 << (idx & 63))):
+                                verdict = False
+        except (formula.Uneval, IndexError, TypeError):
+            verdict = None
+        if verdict is True:
             res.discharged += 1
+        elif verdict is False:
+            res.violate("C09.A", "C09.A|%s|split" % nm, "%s does not address bit `index` as word index >> 6, mask 1 << (index & 63) (%s)" % (nm, t[:120]), f.id)
         else:
-            res.violate("C09.A", "C09.A|%s|split" % nm, "%s no longer splits the index as word = index >> 6, bit = index & 63 (%s)" % (nm, t[:120]), f.id)
+            res.undecided += 1
     # contains short-circuit only on is_empty
     s = Sym(prog, con)
     res.obligations += 1
@@ -129,7 +197,7 @@ def run(prog, ctx):
     if all("is_empty" in c or "num_bits_set" in c for c in conds):
         res.discharged += 1
     else:
-        res.violate("C09.A", "C09.A|contains", "contains() branches on %s before checking the bits" % conds, con.id)
+        res.undecided += 1
 
     # ---------------- C09.N count maintenance
     sb = C.fn_one(prog, B, "set_bit")
@@ -147,12 +215,14 @@ def run(prog, ctx):
                 ok = True
         if ok and len(incs) == 1:
             res.discharged += 1
+        elif len(incs) == 1 and not s.cmp_facts_at(incs[0][0]):
+            res.violate("C09.N", "C09.N|set_bit|count", "num_bits_set is incremented unconditionally (not only when the bit was 0)", sb.id)
         else:
-            res.violate("C09.N", "C09.N|set_bit|count", "num_bits_set is not incremented exactly when the bit was 0", sb.id)
+            res.undecided += 1
         if stores and incs and all(set(repr(x) for x in s.cmp_facts_at(st[0])) == set(repr(x) for x in s.cmp_facts_at(incs[0][0])) for st in stores) and all(C.is_bin(st[3], "BitOr") for st in stores):
             res.discharged += 1
         else:
-            res.violate("C09.N", "C09.N|set_bit|store", "the bit store in set_bit is not `word |= mask` paired with the count increment", sb.id)
+            res.undecided += 1      # by value: C09.A checks the stored word
     for nm, op in (("union", "BitOr"), ("intersect", "BitAnd")):
         f = C.pub_fn(prog, B, nm)
         if f is None:
@@ -167,14 +237,21 @@ def run(prog, ctx):
                 okop = True
         cnt = any((st.get("callee") or "").endswith("count_ones") for _, st in f.calls())
         fin = [C.resolve_var(prog, f, s.rvalue(rv), s) for (ff, b, kind, place, rv, span, adt, fld) in sym.field_stores(prog, adt=B, field="num_bits_set", fns=[f]) if rv is not None]
+        other_op = {"BitOr": "BitAnd", "BitAnd": "BitOr"}[op]
+        wrong = any(not isinstance(place, int) and len(place[1]) == 1 and place[1][0][0] == "*" and C.is_bin(e, other_op) for b, place, e, span, _s in C.assignments(prog, f))
         if okop:
             res.discharged += 1
+        elif wrong:
+            res.violate("C09.N", "C09.N|%s|op" % nm, "%s combines the words with %s instead of %s" % (nm, other_op, op), f.id)
         else:
-            res.violate("C09.N", "C09.N|%s|op" % nm, "%s does not combine the words with %s" % (nm, op), f.id)
+            res.undecided += 1
         if cnt and fin and not any("self.num_bits_set" in show(e) for e in fin):
             res.discharged += 1
-        else:
+        elif not cnt and not any((st.get("callee") or "").startswith("bloom::") for _, st in f.calls()):
+            # nothing counts bits and nothing in-crate is called that could: the count cannot follow the new words
             res.violate("C09.N", "C09.N|%s|recount" % nm, "%s does not recount the set bits of every word (stores %s)" % (nm, [show(e)[:60] for e in fin]), f.id)
+        else:
+            res.undecided += 1
     # C09.N (who-writes pairing): whenever a BloomFilter method takes the bit array mutably, every path from there to a return
     # stores the bit count (or calls a method that does): bits and count never drift apart
     count_writers = set()
@@ -236,7 +313,24 @@ def run(prog, ctx):
         if any(C.is_bin(e, "Sub") and "len(self.bit_array)" in show(e[2]) and "num_bits_set" in show(e[3]) and 64 in C.consts_in(e[2]) for e in fin):
             res.discharged += 1
         else:
-            res.violate("C09.N", "C09.N|invert", "invert does not store capacity - num_bits_set (%s)" % [show(e) for e in fin], inv.id)
+            # by value: the stored count must be capacity - old count
+            verdict = None
+            try:
+                for e in fin:
+                    verdict = True
+                    for words in (1, 3, 64):
+                        for old in (0, 5, 64 * words):
+                            got = formula.evaluate(e, {"@prog": prog, "self.bit_array": [0] * words, "self.num_bits_set": old})
+                            if got != 64 * words - old:
+                                verdict = False
+            except formula.Uneval:
+                verdict = None
+            if verdict is True:
+                res.discharged += 1
+            elif verdict is False:
+                res.violate("C09.N", "C09.N|invert", "invert does not store capacity - num_bits_set (%s)" % [show(e) for e in fin], inv.id)
+            else:
+                res.undecided += 1
     rs = C.pub_fn(prog, B, "reset")
     if rs is not None:
         s = Sym(prog, rs)
@@ -246,8 +340,12 @@ def run(prog, ctx):
         fills = any((st.get("callee") or "").endswith("::fill") for _, st in rs.calls())
         if fills and fin == [("const", 0)]:
             res.discharged += 1
+        elif fin and fin != [("const", 0)] and all(e[0] == "const" for e in fin):
+            res.violate("C09.N", "C09.N|reset", "reset stores %s in the bit count" % [show(e) for e in fin], rs.id)
+        elif not fin and not any((st.get("callee") or "").startswith("bloom::") for _, st in rs.calls()):
+            res.violate("C09.N", "C09.N|reset", "reset does not clear the bit count", rs.id)
         else:
-            res.violate("C09.N", "C09.N|reset", "reset does not clear both the bit array and the bit count", rs.id)
+            res.undecided += 1
     res.rule("C09.N", n_n, 5, "count-maintenance sites")
     # ---------------- C09.H the XXH64 implementation the positions are derived from (rules shared with C16)
     from . import C16
